@@ -79,6 +79,15 @@ S1ReplyFails(p, r, ndialects) ==
                    /\ L16(r, 4 + 33 + 6) <= L16(r, 4 + 33 + 2 * r[4 + 33])
                 THEN {} ELSE { "smb1-security-blob-length" }))
 
+(* the request-independent part: framing, reply flag, echoed command and ids *)
+S1ReplyShellFails(p, r) ==
+    IF ~(IsSmb1(r) /\ Len(r) >= 4 + 35 /\ S1HdrOK(p)) THEN { "smb1-header" }
+    ELSE (IF NbtLenIs(r, Len(r) - 4) THEN {} ELSE { "netbios-length" })
+         \cup (IF S1Flags(r) >= 128 THEN {} ELSE { "smb1-reply-flag" })
+         \cup (IF S1Cmd(r) = S1Cmd(p) THEN {} ELSE { "smb1-command-echo" })
+         \cup (IF S1Corr(r) = S1Corr(p) THEN {} ELSE { "smb1-pid-tid-uid-mid-echo" })
+         \cup (IF S1BodyOK(r) THEN {} ELSE { "smb1-bytecount" })
+
 (* ------------------------------- SMB2 ---------------------------------- *)
 S2HdrOK(p)   == Len(p) >= 4 + 64
 S2Cmd(p)     == L16(p, 4 + 12)
@@ -122,4 +131,10 @@ S2ReplyFails(p, r, offered) ==
                          (IF (sl = 0 \/ off = 128) /\ 4 + off + sl = Len(r) THEN {} ELSE { "smb2-security-buffer" })
           ELSE LET off == L16(r, 4 + 64 + 4)  sl == L16(r, 4 + 64 + 6) IN
                (IF (sl = 0 \/ off = 72) /\ 4 + off + sl = Len(r) THEN {} ELSE { "smb2-security-buffer" }))
+S2ReplyShellFails(p, r) ==
+    IF ~(IsSmb2(r) /\ Len(r) >= 4 + 64 + 8 /\ S2HdrOK(p)) THEN { "smb2-header" }
+    ELSE (IF NbtLenIs(r, Len(r) - 4) THEN {} ELSE { "netbios-length" })
+         \cup (IF S2Flags0(r) % 2 = 1 THEN {} ELSE { "smb2-reply-flag" })
+         \cup (IF S2Cmd(r) = S2Cmd(p) THEN {} ELSE { "smb2-command-echo" })
+         \cup (IF S2Corr(r) = S2Corr(p) THEN {} ELSE { "smb2-message-async-session-id-echo" })
 =============================================================================
